@@ -1,5 +1,7 @@
 import Soa.Lemmas.Positions
 import Soa.Props.C04
+import Soa.Model.Pinned
+import Soa.Extracted.Bodies
 /-!
 # C05 — views cover the right window and confine mutation
 
@@ -195,5 +197,14 @@ example : Inside 5 ⟨1, 3⟩ := by unfold Inside; decide
 example : visible [10, 11, 12, 13, 14] ⟨1, 3⟩ = [11, 12, 13] := by decide
 example : (Model.setLeaf 1 2 99 (.nest [.leaf [1, 2, 3], .nest [.leaf [4, 5, 6], .leaf [7, 8, 9]]]) 0).1.leaves =
     [[1, 2, 3], [4, 5, 99], [7, 8, 9]] := by decide
+
+/-- **text pin**: the generated functions this property's hand-written model describes have, in
+    /repo today, exactly the text the model was written from (`Soa/Model/Pinned.lean`) -/
+theorem bodies_pinned :
+    Soa.Extracted.bodies.filter (fun r => Soa.Model.scopeOf r == "C05") =
+    Soa.Model.pinned.filter (fun r => Soa.Model.scopeOf r == "C05") := by decide +kernel
+
+theorem bodies_pinned_nonempty :
+    (Soa.Model.pinned.filter (fun r => Soa.Model.scopeOf r == "C05")).length ≥ 4 := by decide +kernel
 
 end Soa.C05
